@@ -152,13 +152,14 @@ prop('C14', ['A1', 'A3', 'A5', 'G5', 'M3'],
      'call (A5); key lists are copies (M3); registry references are paired (G5).',
      ['observational immutability over histories'])
 
-prop('C15', ['E1', 'E2', 'E3', 'E4', 'E5', 'E6', 'K7', 'I2', 'A5'],
+prop('C15', ['E1', 'E2', 'E3', 'E4', 'E5', 'E6', 'K7', 'I2', 'A5', 'D1'],
      'Failing callbacks, structural part: guard sets are cleaned on every exit (E1); raw owned '
      'references are released on every path (E2); stealing sinks get owned references (E3); no '
      'user code between allocation and fill of a tuple/list (E4); only the TypeError fallbacks of '
      'the key sort swallow (E5); only documented exception types are thrown (E6); malformed custom '
      'results raise RuntimeError (K7); no error-swallowing lookup on user dicts (I2); a failing '
-     'call leaves its operands untouched (A5). Thorough tier: X1 across 4 CPython configurations.',
+     'call leaves its operands untouched (A5); the dict-order mode is restored on every exit of '
+     'the with-block, whatever the body raises (D1). Thorough tier: X1 across 4 CPython configurations.',
      ['reference-count equality after a fault at every k'], thorough_rules=['X1'])
 
 prop('C16', ['K8', 'K9', 'K9py', 'K7', 'I1', 'I2', 'I3', 'I4', 'I5', 'S3'],
